@@ -21,7 +21,7 @@ from inline_snapshot import snapshot
 __all__ = [
     "Color", "Perm", "Outer", "DC", "DCD", "DCN", "AT", "PM", "NT", "NTD", "NoCode", "NoCodeBox", "BadCopy", "RaisesEq",
     "Unorderable", "REC", "rec", "ok", "mark", "check_eq", "check_le", "check_ge", "check_in", "G", "set_g",
-    "Is", "outsource", "snapshot", "defaultdict", "ident", "Plain", "EvilEq", "snapshot_alias", "NP", "NPBool", "check_example", "EXAMPLE_SRC", "KW", "Tags", "FTags", "rec_value",
+    "Is", "outsource", "snapshot", "defaultdict", "ident", "Plain", "EvilEq", "snapshot_alias", "NP", "NPBool", "check_example", "EXAMPLE_SRC", "KW", "Tags", "FTags", "rec_value", "in_thread",
 ]
 
 defaultdict = collections.defaultdict
@@ -325,6 +325,26 @@ def check_example(flags, changed):
 
     Example(EXAMPLE_SRC).run_inline([f"--inline-snapshot={flags}"] if flags else [], changed_files=changed)
     return True
+
+
+def in_thread(thunk):
+    """evaluate thunk in a worker thread that is started and joined here; its answer (or exception) is handed to the caller"""
+    import threading
+
+    box = {}
+
+    def run():
+        try:
+            box["v"] = thunk()
+        except BaseException as e:  # noqa
+            box["e"] = e
+
+    t = threading.Thread(target=run)
+    t.start()
+    t.join()
+    if "e" in box:
+        raise box["e"]
+    return box["v"]
 
 
 def check_eq(a, b):
